@@ -46,15 +46,20 @@ ASSUMPTIONS = [
 ]
 EXPLANATION = (
     "C14_statement (a client whose reply has been processed is never blocked in poll() or on the condition) is false of "
-    "the pinned code: C14_counterexample (explicit schedule: background thread receives the caller's reply, releases, "
-    "notifies; caller tests readiness, takes the lock, blocks in poll; background thread dispatches), "
-    "C14_counterexample_until_deadline, C14_counterexample_forever (timeout None: never enabled again, whatever time "
-    "passes), C14_counterexample_late and C14_counterexample_clients (other shapes of the same defect). Proved: "
-    "C14_partial_self (the invariant holds whenever the thread that dispatched the reply is the waiter itself), "
-    "C14_stall_needs_other_receiver, C14_partial_deadline (after its own expiry time a client is never blocked), "
-    "C14_partial_value (what a call returns is the peer's answer to that very request). Known finding F3; no fix "
-    "committed (a sound repair needs readiness re-checked under the receive lock and dispatch ordered before the "
-    "lock hand-off).")
+    "the pinned code: C14_counterexample (explicit schedule), C14_counterexample_until_deadline, C14_counterexample_forever "
+    "(timeout None: never enabled again whatever time passes), C14_counterexample_late and C14_counterexample_clients (other "
+    "shapes of the same defect, one without any background thread). Proved: C14_stall_classification (every stall: result "
+    "popped by another thread; the client is in poll() holding the receive lock with nothing to read, or in the wait-set) "
+    "-- the trace-order part of the harness signatures is NOT a Lean statement (no history in the model state); "
+    "C14_bounded_stall (a stalled client's next step is enabled after the next frame/EOF/close/deadline/notify; from the "
+    "loop test with its result ready its continuation is three steps to the peer's answer, no further serve) with "
+    "released_waiter_returns (the same, step by step); C14_partial_self / C14_stall_needs_other_receiver; "
+    "C14_partial_deadline (never blocked once its own expiry is reached; real-code oracle: blocked-past-own-expiry); "
+    "C14_partial_value; C14_holds_without_second_thread (runs in which only one logical thread and the environment act; "
+    "does not cover user-class references, whose INSPECT round trip is a second logical thread). Lemmas that are "
+    "definitional / true of the model by construction (stalled_waiter_released, ready_stable, dispatcher_sends_no_request) "
+    "live in Conc/Serve/Stalls.lean and are not counted as property theorems. The timed form returnTime <= dispatchTime is "
+    "measured by the harness, not stated in Lean. Known finding F3; no fix committed.")
 
 KNOWN_SHAPES = (ss.SIG_MAIN, ss.SIG_LATE)
 
